@@ -5,6 +5,10 @@
 (* default matrix configuration per K, and every matrix configuration on   *)
 (* two scalar configurations; thorough: the full product, and every        *)
 (* negative semi-definite Hessian with small integer entries).             *)
+(* MC_Rat*: the rational family -- Hessians hs * H and BHHH bs * B whose   *)
+(* entries (thirds, sevenths, tenths, ...) are not binary floating-point   *)
+(* numbers, including singular matrices whose rounded image is NOT exactly *)
+(* singular (an LU factorisation of it meets no zero pivot).               *)
 (***************************************************************************)
 EXTENDS Results
 
@@ -13,10 +17,13 @@ Yes(x)  == [ex |-> TRUE, v |-> x]
 NoBoot  == [ex |-> FALSE, r |-> << >>]
 Boot(r) == [ex |-> TRUE, r |-> r]
 
-Outcome(id, sc, th, H, B, boot) ==
+\* H, B: records [m |-> integer matrix, s |-> rational scale > 0]
+OutcomeS(id, sc, th, H, B, boot) ==
     [id |-> id, K |-> Len(th.v), names |-> th.names, theta |-> th.v, lb |-> th.lb, ub |-> th.ub,
      N |-> sc.N, nobs |-> sc.nobs, excl |-> sc.excl, L |-> sc.L, L0 |-> sc.L0, Ln |-> sc.Ln,
-     g |-> th.g, H |-> H, B |-> B, boot |-> boot, mc |-> sc.mc]
+     g |-> th.g, H |-> H.m, hs |-> H.s, B |-> B.m, bs |-> B.s, boot |-> boot, mc |-> sc.mc]
+Sc(M, s) == [m |-> M, s |-> s]
+Outcome(id, sc, th, H, B, boot) == OutcomeS(id, sc, th, Sc(H, One), Sc(B, One), boot)
 
 (* ---------------- scalar configurations ---------------- *)
 Scal(L, L0, Ln, N) == [L |-> L, L0 |-> L0, Ln |-> Ln, N |-> N,
@@ -70,6 +77,37 @@ SymFrom(K, d, u) == IF K = 1 THEN << <<d[1]>> >>
 MC_HAllNSD(K, D, U) == { h \in { SymFrom(K, d, u) : d \in [1..K -> D], u \in [1..((K * (K - 1)) \div 2) -> U] } :
                            MIsPSD(MNeg(h, K), K) }
 
+(* ---------------- rational Hessians ---------------- *)
+\* -(v v^T): rank one
+OuterNeg(v) == [i \in 1..Len(v) |-> [j \in 1..Len(v) |-> -(v[i] * v[j])]]
+\* -(sum_k d[k] c_k c_k^T) for pairwise orthogonal integer vectors c_k of equal length l: l^2 times
+\* -(Q diag(d) Q^T) with the rational orthogonal matrix Q = (c_1 .. c_n) / l; a zero in d = a kernel direction
+SpectralNeg(cols, d) == [i \in 1..Len(cols) |-> [j \in 1..Len(cols) |->
+                           -SumN([k \in 1..Len(cols) |-> d[k] * cols[k][i] * cols[k][j]], Len(cols))]]
+Cols2 == << <<3, 4>>, <<4, -3>> >>                           \* length 5
+Cols3 == << <<1, 2, 2>>, <<2, 1, -2>>, <<2, -2, 1>> >>       \* length 3
+\* singular matrices on which Gaussian elimination in floating point does not end on an exact zero, and
+\* regular matrices with a moderately small eigenvalue (ratio 1/20, 1/40: 32-bit arithmetic of TLC)
+MC_HX1 == { }
+MC_HX2 == { OuterNeg(<<1, 3>>), OuterNeg(<<3, 5>>),                       \* rank one
+            SpectralNeg(Cols2, <<1, 0>>) }                                \* rank one, kernel (4, -3)
+MC_HX3 == { OuterNeg(<<1, 3, 5>>),                                        \* rank one
+            << <<-2, -2, -2>>, <<-2, -4, -6>>, <<-2, -6, -10>> >>,        \* rank two: -(u u^T + w w^T), u = (1,2,3), w = (1,0,-1)
+            SpectralNeg(Cols3, <<1, 3, 0>>), SpectralNeg(Cols3, <<1, 2, 0>>) }  \* rank two, kernel (2, -2, 1)
+MC_HX(K) == IF K = 1 THEN MC_HX1 ELSE IF K = 2 THEN MC_HX2 ELSE MC_HX3
+\* regular, negative definite, nearly rank deficient: large entries and a small determinant (100 / 200), the
+\* eigenvalues of the 2x2 block are about -1000.9 and -0.0999 (ratio 10^4)
+MC_HIll(K) == IF K = 1 THEN { } ELSE IF K = 2 THEN { << <<-1000, 30>>, <<30, -1>> >> }
+              ELSE { << <<-1000, 30, 0>>, <<30, -1, 0>>, <<0, 0, -2>> >>,
+                     << <<-100, 9, 0>>, <<9, -2, 1>>, <<0, 1, -3>> >> }                     \* determinant -257
+Scaled(Ms, scales) == { Sc(M, s) : M \in Ms, s \in scales }
+\* the integer families by thirds and sevenths; the additional matrices also unscaled and by tenths
+MC_HRatQuick(K) == Scaled(MC_H(K), {Q(1, 3), Q(1, 7)}) \cup Scaled(MC_HX(K), {One, Q(1, 7), Q(1, 10)})
+                   \cup Scaled(MC_HIll(K), {Q(1, 3)})
+MC_HRat(K)      == Scaled(MC_H(K), {Q(1, 3), Q(1, 7), Q(3, 7), Q(1, 10)})
+                   \cup Scaled(MC_HX(K), {One, Q(1, 3), Q(1, 7), Q(3, 7), Q(1, 10)})
+                   \cup Scaled(MC_HIll(K), {One, Q(1, 3)})
+
 (* ---------------- BHHH (positive semi-definite) ---------------- *)
 MC_B1 == { << <<3>> >>, << <<0>> >> }
 MC_B2 == { << <<2, 1>>, <<1, 2>> >>, << <<1, 2>>, <<2, 4>> >>, << <<1, 0>>, <<0, 3>> >> }
@@ -108,6 +146,9 @@ MC_CompileStats == <<"Number of estimated parameters", "Sample size", "Final log
 (* ---------------- families ---------------- *)
 Product(K, scalars, hs, bs, boots, thetas) ==
     { Outcome("m0", sc, th, H, B, bt) : sc \in scalars, th \in thetas, H \in hs, B \in bs, bt \in boots }
+\* the same over scaled matrices
+ProductS(K, scalars, hs, bs, boots, thetas) ==
+    { OutcomeS("m0", sc, th, H, B, bt) : sc \in scalars, th \in thetas, H \in hs, B \in bs, bt \in boots }
 
 DefaultH(K) == IF K = 1 THEN {<< <<-2>> >>} ELSE IF K = 2 THEN {<< <<-2, 1>>, <<1, -2>> >>}
                ELSE {<< <<-2, 1, 0>>, <<1, -2, 1>>, <<0, 1, -2>> >>}
@@ -124,6 +165,21 @@ NSDK(K) == Product(K, MC_ScalarsOne,
                    ELSE IF K = 2 THEN MC_HAllNSD(2, -3..0, -2..2) ELSE MC_HAllNSD(3, -2..0, -1..1),
                    MC_B(K), MC_BootTwo(K), MC_Theta(K))
 
+\* rational family.  Scalars: N = 7 individuals with 10 observations (panel data).
+BRatQuick(K) == Scaled(DefaultB(K), {One, Q(1, 3)}) \cup Scaled(MC_B(K) \ DefaultB(K), {Q(2, 7)})
+BRat(K)      == Scaled(DefaultB(K), {One}) \cup Scaled(MC_B(K), {Q(1, 3), Q(2, 7)})
+RatQuickK(K) ==
+    ProductS(K, MC_ScalarsOne, MC_HRatQuick(K), BRatQuick(K), {NoBoot}, DefaultTheta(K))
+    \cup ProductS(K, MC_ScalarsOne, MC_HRatQuick(K), Scaled(DefaultB(K), {Q(1, 3)}), MC_BootTwo(K) \ {NoBoot}, DefaultTheta(K))
+RatK(K) == ProductS(K, MC_ScalarsOne, MC_HRat(K), BRat(K), MC_BootTwo(K), MC_Theta(K))
+\* every negative semi-definite Hessian of NSDK(K), by thirds and by sevenths
+RatNSDK(K) == ProductS(K, MC_ScalarsOne,
+                       Scaled(IF K = 2 THEN MC_HAllNSD(2, -3..0, -2..2) ELSE MC_HAllNSD(3, -2..0, -1..1), {Q(1, 3), Q(1, 7)}),
+                       Scaled(DefaultB(K), {Q(1, 3)}), {NoBoot}, DefaultTheta(K))
+
+MC_RatQuick  == RatQuickK(1) \cup RatQuickK(2) \cup RatQuickK(3) \cup MC_CompanionSet
+MC_Rat12     == RatK(1) \cup RatK(2) \cup RatNSDK(2) \cup MC_CompanionSet
+MC_Rat3      == RatK(3) \cup RatNSDK(3) \cup MC_CompanionSet
 MC_Quick     == QuickK(1) \cup QuickK(2) \cup QuickK(3) \cup MC_CompanionSet
 MC_Full1     == FullK(1) \cup MC_CompanionSet
 MC_Full2     == FullK(2) \cup MC_CompanionSet
